@@ -6,7 +6,9 @@ cp "$F" /tmp/mut_backup.$$
 sed -i "$E" "$F"
 if cmp -s "$F" /tmp/mut_backup.$$; then echo "MUTATION DID NOT APPLY"; rm /tmp/mut_backup.$$; exit 3; fi
 (cd /repo && git diff --stat | tail -1)
+rm -rf /tmp/evidence.bak.$$; cp -r /verif/evidence /tmp/evidence.bak.$$
 cd /verif && ./check $P 2>&1 | grep -E "VIOLATION|UNDECIDED|discharged|KNOWN" | cut -c1-220 | head -${4:-6}
 rc=${PIPESTATUS[0]}
 cp /tmp/mut_backup.$$ "$F"; rm /tmp/mut_backup.$$
+rm -rf /verif/evidence; mv /tmp/evidence.bak.$$ /verif/evidence
 (cd /repo && git status --short | grep -v _build)
